@@ -17,7 +17,7 @@ def build(reg):
     handler.add_handler(reg)
     externs.add_text(reg)
     externs.add_ospath(reg)
-    flags = dict(handler.FLAGS)
+    flags = dict(reg.classes['Flags']['fields'])
     flags.update({'static_server_dir': 'str', 'min_compression_length': 'int', 'enable_static_server': 'bool'})
     reg.klass('Flags', py=None, fields=flags)
     reg.klass('HttpWebServerPlugin', py='proxy.http.server.web:HttpWebServerPlugin',
